@@ -656,4 +656,24 @@ func (in *inst) roundTrip(lst, src string, w []byte, wait time.Duration, hdr map
 	return nil, 0, fmt.Errorf("unknown listener %s", lst)
 }
 
+// sendFromPort0 delivers w to the UDP listener in a datagram whose source port is 0 (raw socket): the proxy
+// cannot answer it (sendmsg fails), which must not affect the queries that follow. Returns false when the
+// sandbox does not allow raw sockets.
+func (in *inst) sendFromPort0(w []byte) bool {
+	c, err := net.ListenPacket("ip4:udp", "127.0.0.1")
+	if err != nil {
+		in.tr.Emit("note", "what", "raw socket unavailable: "+err.Error())
+		return false
+	}
+	defer c.Close()
+	h := make([]byte, 8+len(w))
+	binary.BigEndian.PutUint16(h[0:], 0)
+	binary.BigEndian.PutUint16(h[2:], uint16(in.ports["udp"]))
+	binary.BigEndian.PutUint16(h[4:], uint16(8+len(w)))
+	copy(h[8:], w) // checksum 0: not computed (IPv4)
+	_, err = c.WriteTo(h, &net.IPAddr{IP: net.IPv4(127, 0, 0, 1)})
+	in.tr.Emit("note", "what", "query sent from source port 0", "ok", err == nil)
+	return err == nil
+}
+
 func base64Raw(s string) ([]byte, error) { return base64.RawURLEncoding.DecodeString(s) }
